@@ -646,6 +646,61 @@ Example C13_grpcjson_refused_entry_examples :
   grpc_provider u false 1 1 3 4 [97; 10; 98; 10; 97; 98; 99; 100; 10]%N = Some [PDeliver [97]%N []; PDone].
 Proof. repeat split; vm_compute; reflexivity. Qed.
 
+(* ---------- round 8 (second part): a source that fails while it is read (grpc/json) ----------
+   Model/AmmoHostileConfig.v (5): [rerr_spec] = what a consumer sees when Read returns an I/O error after the
+   complete lines [a] and an unterminated rest. *)
+
+(* an error on a line boundary is the refused-entry case — and through C13_grpcjson_refused_entry_run_is_spec the
+   pass loop's end at a scanner error *)
+Theorem C13_grpcjson_read_error_on_boundary :
+  forall unmarshal cont (limit : Z) a ammo p,
+    p = None \/ p = Some [] ->
+    rerr_spec unmarshal cont limit ammo a p = refused_spec unmarshal cont limit ammo a.
+Proof. exact rerr_spec_boundary. Qed.
+Print Assumptions C13_grpcjson_read_error_on_boundary.
+
+(* a run over a failing source ends successfully only when the limit is set and smaller than the number of
+   COMPLETE lines read before the failure: otherwise the I/O error is reported *)
+Theorem C13_grpcjson_read_error_success_needs_limit :
+  forall unmarshal cont (limit : Z) p a ammo,
+    (0 <= ammo)%Z -> In PDone (rerr_spec unmarshal cont limit ammo a p) ->
+    limit <> 0%Z /\ (limit < ammo + Z.of_nat (length a))%Z.
+Proof. exact rerr_spec_done_needs_limit. Qed.
+Print Assumptions C13_grpcjson_read_error_success_needs_limit.
+
+(* all complete lines are delivered in order, then what the scanner hands out after the error, which ends with
+   the error and contains no successful end *)
+Theorem C13_grpcjson_read_error_reported :
+  forall unmarshal cont (limit : Z) p a ammo,
+    (0 <= ammo)%Z ->
+    (limit = 0 \/ ammo + Z.of_nat (length a) <= limit)%Z ->
+    (cont = true \/ Forall (decodable unmarshal) a) ->
+    rerr_spec unmarshal cont limit ammo a p =
+      map (deliver_of unmarshal) a ++ rerr_tail unmarshal cont limit (ammo + Z.of_nat (length a)) p /\
+    exists pre, rerr_tail unmarshal cont limit (ammo + Z.of_nat (length a)) p = pre ++ [PErr] /\ ~ In PDone pre.
+Proof.
+  exact (fun u c l p a ammo H0 Hl Hd =>
+           conj (rerr_spec_reaches_error u c l p a ammo H0 Hl Hd)
+                (rerr_tail_ends_with_error u c l (ammo + Z.of_nat (length a))%Z p)).
+Qed.
+Print Assumptions C13_grpcjson_read_error_reported.
+
+Example C13_grpcjson_read_error_examples :
+  let u := fun l : bytes => Some (l, @nil N) in
+  let file := [97; 98; 10; 99; 100; 10; 101; 102; 10]%N in   (* "ab", "cd", "ef" *)
+  (* the read fails after 4 bytes ("ab\nc"): "ab", the rest "c", then the error — for passes 1 as for passes 0 *)
+  grpc_read_error_expected u false 0 1 0 8 file 4 = Some [PDeliver [97; 98]%N []; PDeliver [99]%N []; PErr] /\
+  grpc_read_error_expected u false 0 0 0 8 file 4 = Some [PDeliver [97; 98]%N []; PDeliver [99]%N []; PErr] /\
+  (* after 3 bytes (a line boundary): "ab", then the error *)
+  grpc_read_error_expected u false 0 1 0 8 file 3 = Some [PDeliver [97; 98]%N []; PErr] /\
+  (* limit 1, failure after 7 bytes: the limit ends the run within the complete lines: successful *)
+  grpc_read_error_expected u false 1 1 0 8 file 7 = Some [PDeliver [97; 98]%N []; PDone] /\
+  (* limit 1, failure after 4 bytes: the scanner has met the error when the limit ends the run: error *)
+  grpc_read_error_expected u false 1 1 0 8 file 4 = Some [PDeliver [97; 98]%N []; PErr] /\
+  (* failure at byte 0: the error at once *)
+  grpc_read_error_expected u false 0 1 0 8 file 0 = Some [PErr].
+Proof. repeat split; vm_compute; reflexivity. Qed.
+
 (* ---------- round 8: the top-level config file as `pandora config.yaml` reads it (cli/cli.go readConfig) ----------
    Model/AmmoCliConfig.v: a config value tree, the discard_overflow pre-pass with its two type assertions as
    partial operations ([checked] = the comma-ok form of the repaired code), the decoder a parameter. *)
